@@ -216,3 +216,56 @@ def loop_domain(unit, cps):
             return "zip", it
         return key[1], it
     return None, it
+
+
+def adt_field(model, adt_cpath, name):
+    """(index, type idx) of field `name` in single-variant local ADT `adt_cpath`."""
+    a = model.F.adts_c.get(adt_cpath)
+    if a is None or len(a["variants"]) != 1:
+        return None, None
+    for i, f in enumerate(a["variants"][0]["fields"]):
+        if f["name"] == str(name):
+            return i, f["ty"]
+    return None, None
+
+
+def sub_struct_pos(model, member, path):
+    """Position of a child-indexed field reached from `self` by the field-name path, e.g.
+    ('futures', 'A') or ('output', 'B') or ('outputs', 1): the index of the last field inside its
+    struct/tuple (valid for the per-child sub-structs whose field count equals the arity)."""
+    adt = member.adt
+    F = model.F
+    pos = None
+    for i, name in enumerate(path):
+        if isinstance(name, int) and adt is None:
+            pos = name
+            continue
+        idx, ty = adt_field(model, adt, name)
+        if idx is None:
+            return None
+        pos = idx
+        t = F.types[ty]
+        # peel Pin<&mut X> / &mut X
+        while t["k"] in ("ref",) or (t["k"] == "adt" and simple_name(t["cpath"]) in ("Pin",) and t["args"]):
+            if t["k"] == "ref":
+                t = F.types[t["ty"]]
+            else:
+                t = F.types[[a for a in t["args"] if isinstance(a, int)][0]]
+        if t["k"] == "adt" and t.get("local"):
+            adt = t["cpath"]
+        elif t["k"] == "tuple":
+            adt = None
+        else:
+            adt = None
+    return pos
+
+
+def self_path(t):
+    """field-name path of a term rooted at `self` (param 1), or None."""
+    path = []
+    while t is not None and t[0] == "field":
+        path.append(t[2])
+        t = t[1]
+    if t == ("param", 1):
+        return tuple(reversed(path))
+    return None
